@@ -57,6 +57,15 @@ import (
 
 var tok = insecuresecretdataaccess.Token{}
 
+func idBytes(v uint32, le bool) []byte {
+	if le {
+		var b [4]byte
+		binary.LittleEndian.PutUint32(b[:], v)
+		return b[:]
+	}
+	return be32(v)
+}
+
 func be32(v uint32) []byte { var b [4]byte; binary.BigEndian.PutUint32(b[:], v); return b[:] }
 
 // ---------------------------------------------------------------------------------------------------
@@ -126,8 +135,8 @@ func keyIDSection(x *h.X) {
 		}
 		return 0, nil, fmt.Errorf("id %#x not in the handle", id)
 	}
-	fieldsOf := func(id uint32, k key.Key) []field {
-		fs := []field{{"key id (big endian)", be32(id)}}
+	fieldsOf := func(id uint32, k key.Key, le bool) []field {
+		fs := []field{{"key id", idBytes(id, le)}}
 		if entry != "Manager.AddKey(key without id requirement)" {
 			fs = append(fs, field{"key material", k.(*aesgcm.Key).KeyBytes().Data(tok)})
 		}
@@ -151,7 +160,13 @@ func keyIDSection(x *h.X) {
 			x.Fail("keygen-error", "%s: %v", cfg, err)
 			return
 		}
-		if ok, why := tile(stream, fieldsOf(id, k)); !ok {
+		// byte order of the id is not part of the property (any bijection of the 4 drawn bytes spreads uniformly):
+		// big- and little-endian readings are both accepted
+		ok, why := tile(stream, fieldsOf(id, k, false))
+		if !ok {
+			ok, _ = tile(stream, fieldsOf(id, k, true))
+		}
+		if !ok {
 			x.Fail("id-not-drawn-bytes", "%s: id %#x / key material are not the entropy drawn in this call (draws %v): %s", cfg, id, ds, why)
 			return
 		}
@@ -171,7 +186,7 @@ func keyIDSection(x *h.X) {
 			return
 		}
 		for i, d := range e.tp.Since(m) {
-			if d.N == 4 && bytes.Equal(e.tp.Bytes(d.Off, 4), be32(id)) {
+			if d.N == 4 && (bytes.Equal(e.tp.Bytes(d.Off, 4), be32(id)) || bytes.Equal(e.tp.Bytes(d.Off, 4), idBytes(id, true))) {
 				idDraw = i
 			}
 		}
@@ -187,6 +202,10 @@ func keyIDSection(x *h.X) {
 			vals = append(vals, v)
 		}
 	}
+	// The id must be an INJECTIVE image of the four drawn bytes that uses all 32 bits (then a uniform draw gives a
+	// uniform id): distinct draws give distinct ids, and every id bit takes both values over the enumerated draws.
+	seenDraw := map[uint32]uint32{} // id -> draw
+	var orBits, andBits uint32 = 0, 0xFFFFFFFF
 	for pos := 0; pos < 4; pos++ {
 		for _, v := range vals {
 			e.load(cCounter)
@@ -195,11 +214,23 @@ func keyIDSection(x *h.X) {
 			e.tp.Answer(idDraw, b)
 			id, _, err := add(keyset.NewManager())
 			x.Eval(1)
-			if err != nil || id != binary.BigEndian.Uint32(b) {
-				x.Fail("id-not-drawn-bytes", "%s %s: entropy answers %x for the id draw, id = %#x (err %v), want big-endian %#x", entry, variant, b, id, err, binary.BigEndian.Uint32(b))
+			if err != nil {
+				x.Fail("keygen-error", "%s %s: %v", entry, variant, err)
 				return
 			}
+			draw := binary.BigEndian.Uint32(b)
+			if prev, dup := seenDraw[id]; dup && prev != draw {
+				x.Fail("id-not-drawn-bytes", "%s %s: entropy answers %08x and %08x for the id draw give the SAME id %#x: the id does not use all drawn bytes", entry, variant, prev, draw, id)
+				return
+			}
+			seenDraw[id] = draw
+			orBits |= id
+			andBits &= id
 		}
+	}
+	if orBits != 0xFFFFFFFF || andBits != 0 {
+		x.Fail("id-not-drawn-bytes", "%s %s: over all enumerated id draws some id bits never change (or=%#x and=%#x): ids do not cover the 32-bit range", entry, variant, orBits, andBits)
+		return
 	}
 	if entry == "keyset.NewHandle" {
 		return
@@ -210,17 +241,24 @@ func keyIDSection(x *h.X) {
 		e.load(cCounter)
 		km := keyset.NewManager()
 		var ids []uint32
+		var raws [][]byte // the four bytes whose draw produced each id (replayed verbatim to force a collision, whatever the byte order)
+		m0 := e.tp.Mark()
 		id0, _, err := add(km)
 		if err != nil {
 			x.Fail("keygen-error", "%s: %v", entry, err)
 			return
 		}
 		ids = append(ids, id0)
+		if d0 := e.tp.Since(m0); len(d0) > idDraw {
+			raws = append(raws, e.tp.Bytes(d0[idDraw].Off, 4))
+		} else {
+			raws = append(raws, be32(id0))
+		}
 		for round := 0; round < 3; round++ {
 			m := e.tp.Mark()
-			// script: the id draw and the k-1 following draws repeat ids already handed out
+			// script: the id draw and the k-1 following draws repeat the bytes that produced ids already handed out
 			for j := 0; j < k; j++ {
-				e.tp.Answer(m+idDraw+j, be32(ids[j%len(ids)]))
+				e.tp.Answer(m+idDraw+j, raws[j%len(raws)])
 			}
 			id, _, err := add(km)
 			x.Eval(1)
@@ -246,10 +284,11 @@ func keyIDSection(x *h.X) {
 			}
 			// the accepted id is the big-endian value of the LAST four-byte id draw (unscripted: tape bytes)
 			last := ds[idDraw+k]
-			if last.N != 4 || !bytes.Equal(e.tp.Bytes(last.Off, 4), be32(id)) {
+			if last.N != 4 || !(bytes.Equal(e.tp.Bytes(last.Off, 4), be32(id)) || bytes.Equal(e.tp.Bytes(last.Off, 4), idBytes(id, true))) {
 				x.Fail("id-not-drawn-bytes", "%s: after %d collisions id %#x is not the value of the fresh draw %v", entry, k, id, last)
 			}
 			ids = append(ids, id)
+			raws = append(raws, e.tp.Bytes(last.Off, 4))
 		}
 	}
 }
@@ -585,7 +624,7 @@ func generate(e *env, entry string, params key.Parameters, kt *tinkpb.KeyTemplat
 		return nil, false
 	}
 	for i, dd := range g.ds {
-		if dd.N == 4 && bytes.Equal(e.tp.Bytes(dd.Off, 4), be32(g.id)) && g.idDraw < 0 {
+		if dd.N == 4 && (bytes.Equal(e.tp.Bytes(dd.Off, 4), be32(g.id)) || bytes.Equal(e.tp.Bytes(dd.Off, 4), idBytes(g.id, true))) && g.idDraw < 0 {
 			g.idDraw = i
 		}
 	}
@@ -663,8 +702,12 @@ func keygenSection(x *h.X) {
 				if !ok {
 					return
 				}
-				fs := append([]field{{"key id (big endian)", be32(g.id)}}, g.km.identity...)
-				if ok, why := tile(g.stream, fs); !ok {
+				fs := append([]field{{"key id", be32(g.id)}}, g.km.identity...)
+				ok, why := tile(g.stream, fs)
+				if !ok { // the id's byte order is not part of the property
+					ok, _ = tile(g.stream, append([]field{{"key id", idBytes(g.id, true)}}, g.km.identity...))
+				}
+				if !ok {
 					x.Fail("key-not-drawn-bytes", "%s generation %d: key material is not the entropy drawn in this call (draws %v): %s", cfg, gen, g.ds, why)
 					return
 				}
